@@ -263,6 +263,11 @@ func runPattern(run *vk.Run, pattern []int, variant int) {
 			ebu.Publish(w.bus, alert{ID: 1000 + len(w.errCalls)})
 		}))
 	}
+	staleCalls := 0
+	if ehMode == 1 {
+		// a handler given by option that is replaced by the setter before use: it must never be called
+		opts = append(opts, ebu.WithPersistenceErrorHandler(func(any, reflect.Type, error) { staleCalls++ }))
+	}
 	w.bus = ebu.New(opts...)
 	if ehMode == 1 {
 		w.bus.SetPersistenceErrorHandler(w.onErr)
@@ -396,6 +401,9 @@ func runPattern(run *vk.Run, pattern []int, variant int) {
 		if pattern[i] != 0 && pattern[i-1] != 0 {
 			consec = true
 		}
+	}
+	if staleCalls != 0 {
+		viol("replaced-error-handler-called", fmt.Sprintf("the error handler given by option was called %d times after SetPersistenceErrorHandler replaced it", staleCalls))
 	}
 	if ehMode == 3 {
 		nf := 0
